@@ -20,7 +20,7 @@ func init() {
 	rnd.Steps = 60
 	rnd.SweepEvery = 20
 	rnd.Cfg = func(r *rng.R, local int) kv.Config {
-		return kv.Config{Disk: local%2 == 1, Buckets: 1, Handles: 1 + local%4/2, Colls: 2}
+		return kv.Config{Disk: local%2 == 1, Buckets: 1, Handles: 1 + local%4/2, Colls: 2 + (local/4)%3} // up to: default, s1.c1, s2.c1, s1.c2
 	}
 	big := rnd
 	big.BigBodies = 6
